@@ -79,3 +79,234 @@ Theorem C12_non_library_error_escapes :
   = (map fst l, Some (gen_exc e)).
 Proof. exact non_library_error_escapes. Qed.
 Print Assumptions C12_non_library_error_escapes.
+
+(* ======================================================================== *)
+(* MESSAGE level (the section framing model Frame.v; the template decoder is *)
+(* the abstract [decode_data], constrained exactly by what is proved of the   *)
+(* data-level decoder: it reads from the front, and what follows the bits it  *)
+(* consumed does not influence it — C12_decode_suffix_independent)            *)
+(* ======================================================================== *)
+From PBK Require Import Frame FrameProofs FrameRoundtrip FrameExamples FramePrefix FramePrefixEnc.
+
+(* bytes that follow a message never influence its decoding: whatever is
+   appended, the decoder returns the SAME message record — same sections
+   (indices, layouts, extents, values), same attributes, same serialized bytes;
+   full or metadata-only, with or without value expectations, any signature *)
+Theorem C12_message_trailing_bytes :
+  forall (decode_data : list (pname * pvalue) -> reader -> result (bits * reader)),
+  (forall p r b r', decode_data p r = Ok (b, r') -> r = b ++ r') ->
+  (forall p r b r' s, decode_data p r = Ok (b, r') -> decode_data p (r ++ s) = Ok (b, r' ++ s)) ->
+  forall sig info ign s t m,
+  decode_message decode_data sig info ign s = Ok m ->
+  decode_message decode_data sig info ign (s ++ t) = Ok m /\
+  exists before after, s ++ t = before ++ m_bytes m ++ after ++ t.
+Proof. exact message_trailing_bytes. Qed.
+Print Assumptions C12_message_trailing_bytes.
+
+(* the same, hypotheses discharged, for the template-decoder stub of the
+   correspondence runs (templates of 031031 only) *)
+Theorem C12_message_trailing_bytes_stub : forall sig info ign s t m,
+  decode_message stub_dd sig info ign s = Ok m ->
+  decode_message stub_dd sig info ign (s ++ t) = Ok m.
+Proof. exact message_trailing_bytes_stub. Qed.
+Print Assumptions C12_message_trailing_bytes_stub.
+
+Example C12_message_trailing_bytes_nonvacuous :
+  is_ok (decode_message stub_dd (Some sig_BUFR) false false ex_bytes) = true /\
+  is_ok (decode_message stub_dd (Some sig_BUFR) true false ex_bytes) = true /\
+  decode_message stub_dd (Some sig_BUFR) false false (ex_bytes ++ [66; 85; 70; 82; 0; 0; 9]%N)
+    = decode_message stub_dd (Some sig_BUFR) false false ex_bytes.
+Proof. repeat split; vm_compute; reflexivity. Qed.
+
+(* ---- truncation ------------------------------------------------------------- *)
+(* [cuts f]: whenever the reader operation f succeeds on a stream R consuming the
+   prefix e, then on EVERY truncation firstn k R it returns the same value (and
+   the truncated rest) when e fits, and fails with a LIBRARY error otherwise.
+   Assumed of the template decoder (a read past the end is BitReadError:
+   C12_read_past_end_uint / _bytes); proved of every bit-reader primitive, of the parameter
+   loop, of decode_section, of the section loop (FramePrefix.v). *)
+
+(* THE cut theorem: for ANY input s that decodes to m (not only encoder output;
+   full or metadata-only; any signature; with or without value expectations)
+   and EVERY k: the first k octets of s decode to the SAME message when they
+   still hold the signature and every bit that was consumed
+   [holds_message: sig_index + |sig| <= k  and  8*sig_index + consumed bits <= 8*k],
+   and fail with a library error otherwise.  No truncation point has any other
+   outcome — in particular none yields a different message or a non-library error. *)
+Theorem C12_message_cut :
+  forall (decode_data : list (pname * pvalue) -> reader -> result (bits * reader)),
+  (forall p, cuts (decode_data p)) ->
+  forall sig info ign s m,
+  decode_message decode_data sig info ign s = Ok m ->
+  forall k,
+    if holds_message sig s m k
+    then decode_message decode_data sig info ign (firstn k s) = Ok m
+    else lib_fail (decode_message decode_data sig info ign (firstn k s)).
+Proof. exact message_cut. Qed.
+Print Assumptions C12_message_cut.
+
+(* No proper prefix of a valid message decodes successfully, and the failure is
+   the library's own error type: every message the encoder produces (editions as
+   encoded, section 2 present or not, lengths recomputed or honoured; the
+   hypotheses of C04_frame_roundtrip), EVERY truncation point k < |message|.
+   [lib_fail x] = exists e, x = Err e /\ is_lib_err e = true. *)
+Theorem C12_encoded_prefix_fails :
+  forall (decode_data : list (pname * pvalue) -> reader -> result (bits * reader)),
+  (forall p r b r', decode_data p r = Ok (b, r') -> r = b ++ r') ->
+  (forall p r b r' s, decode_data p r = Ok (b, r') -> decode_data p (r ++ s) = Ok (b, r' ++ s)) ->
+  (forall p, cuts (decode_data p)) ->
+  forall ign json m k,
+  encode_message ign json = Ok m ->
+  Forall sec_fits (m_sections m) -> Forall desc_fill_ok (m_sections m) ->
+  data_ok decode_data [] (m_sections m) ->
+  (k < length (m_bytes m))%nat ->
+  lib_fail (decode_message decode_data (Some sig_BUFR) false false (firstn k (m_bytes m))).
+Proof. exact encoded_prefix_fails. Qed.
+Print Assumptions C12_encoded_prefix_fails.
+
+(* Metadata-only decoding skips to the declared end of section 4 and never looks
+   at section 5.  Exact bound: it succeeds — with one and the same result, which
+   consumed all but the last four octets — on exactly the prefixes of length
+   >= |message| - 4 and fails with a library error on every shorter one (a cut
+   inside the data section's CONTENT fails too: the skip to the section's
+   declared end is a read). *)
+Theorem C12_encoded_info_prefix :
+  forall (decode_data : list (pname * pvalue) -> reader -> result (bits * reader)),
+  (forall p r b r', decode_data p r = Ok (b, r') -> r = b ++ r') ->
+  (forall p r b r' s, decode_data p r = Ok (b, r') -> decode_data p (r ++ s) = Ok (b, r' ++ s)) ->
+  (forall p, cuts (decode_data p)) ->
+  forall ign json m,
+  encode_message ign json = Ok m ->
+  Forall sec_fits (m_sections m) -> Forall desc_fill_ok (m_sections m) ->
+  data_ok decode_data [] (m_sections m) ->
+  exists mi,
+    decode_message decode_data (Some sig_BUFR) true false (m_bytes m) = Ok mi /\
+    sections_nbits (m_sections mi) = (8 * (length (m_bytes m) - 4))%nat /\
+    forall k,
+      ((length (m_bytes m) - 4 <= k)%nat ->
+         decode_message decode_data (Some sig_BUFR) true false (firstn k (m_bytes m)) = Ok mi) /\
+      ((k < length (m_bytes m) - 4)%nat ->
+         lib_fail (decode_message decode_data (Some sig_BUFR) true false (firstn k (m_bytes m)))).
+Proof. exact encoded_info_prefix. Qed.
+Print Assumptions C12_encoded_info_prefix.
+
+(* the same with every hypothesis discharged or executable: the template-decoder
+   stub of the correspondence runs (templates of 031031 only) *)
+Theorem C12_message_cut_stub : forall sig info ign s m,
+  decode_message stub_dd sig info ign s = Ok m ->
+  forall k,
+    if holds_message sig s m k
+    then decode_message stub_dd sig info ign (firstn k s) = Ok m
+    else lib_fail (decode_message stub_dd sig info ign (firstn k s)).
+Proof. exact message_cut_stub. Qed.
+Print Assumptions C12_message_cut_stub.
+
+Theorem C12_encoded_prefix_fails_stub : forall ign json m k,
+  encode_message ign json = Ok m ->
+  forallb sec_fitsb (m_sections m) = true -> forallb desc_fill_okb (m_sections m) = true ->
+  data_okb stub_dd [] (m_sections m) = true ->
+  (k < length (m_bytes m))%nat ->
+  lib_fail (decode_message stub_dd (Some sig_BUFR) false false (firstn k (m_bytes m))).
+Proof. exact encoded_prefix_fails_stub. Qed.
+Print Assumptions C12_encoded_prefix_fails_stub.
+
+Theorem C12_encoded_info_prefix_stub : forall ign json m,
+  encode_message ign json = Ok m ->
+  forallb sec_fitsb (m_sections m) = true -> forallb desc_fill_okb (m_sections m) = true ->
+  data_okb stub_dd [] (m_sections m) = true ->
+  exists mi,
+    decode_message stub_dd (Some sig_BUFR) true false (m_bytes m) = Ok mi /\
+    sections_nbits (m_sections mi) = (8 * (length (m_bytes m) - 4))%nat /\
+    forall k,
+      ((length (m_bytes m) - 4 <= k)%nat ->
+         decode_message stub_dd (Some sig_BUFR) true false (firstn k (m_bytes m)) = Ok mi) /\
+      ((k < length (m_bytes m) - 4)%nat ->
+         lib_fail (decode_message stub_dd (Some sig_BUFR) true false (firstn k (m_bytes m)))).
+Proof. exact encoded_info_prefix_stub. Qed.
+Print Assumptions C12_encoded_info_prefix_stub.
+
+(* non-vacuity: three concrete messages (edition 3 with section 2, edition 4
+   without, edition 2 with) satisfy the executable hypotheses; they decode; every
+   one of their proper prefixes fails with a library error (computed, all k);
+   metadata-only: every k < |m| - 4 fails with a library error, every k >= |m| - 4
+   succeeds *)
+Example C12_truncation_nonvacuous :
+  ex_hyps (ex_json 0 0 0 0) = true /\ ex_hyps ex4_json = true /\ ex_hyps ex2_json = true /\
+  ex_all_prefixes_fail (ex_json 0 0 0 0) = true /\ ex_all_prefixes_fail ex4_json = true /\
+  ex_all_prefixes_fail ex2_json = true /\
+  ex_info_prefixes (ex_json 0 0 0 0) = true /\ ex_info_prefixes ex4_json = true /\
+  ex_info_prefixes ex2_json = true.
+Proof. exact truncation_nonvacuous. Qed.
+
+(* ---- the REAL template decoders ------------------------------------------------- *)
+From PBK Require Import Column DecodeC FramePrefixData.
+
+(* Data-level truncation theorem.  Decode.decode_uncompressed and
+   DecodeC.decode_compressed — the full template walk of Walk.v, ANY template T,
+   any number of subsets — CUT: on every truncation of a stream they decode, they
+   return the same descriptors, links and values when the bits they consumed
+   fit, and fail with a LIBRARY error otherwise (instance 4 of the generic
+   simulation theorem WalkSim.walk_sim_gen: the truncated run follows the full
+   run until a read passes the end, which is BitReadError). *)
+Theorem C12_decode_uncompressed_cuts : forall T n, cuts (decode_uncompressed T n).
+Proof. exact decode_uncompressed_cuts. Qed.
+Print Assumptions C12_decode_uncompressed_cuts.
+
+Theorem C12_decode_compressed_cuts : forall T n, cuts (decode_compressed T n).
+Proof. exact decode_compressed_cuts. Qed.
+Print Assumptions C12_decode_compressed_cuts.
+
+(* The framing model with the real data decoders plugged in:
+   [dd_template T_of n_of c_of props r] decodes r with the template T_of props,
+   n_of props subsets, compressed iff c_of props, and returns the bits consumed
+   (how the attributes of sections 1 and 3 determine the expanded template — table
+   lookup — is outside the framing model, hence arbitrary functions).
+   NO hypothesis about the template decoder is left. *)
+Theorem C12_message_trailing_bytes_template : forall T_of n_of c_of sig info ign s t m,
+  decode_message (dd_template T_of n_of c_of) sig info ign s = Ok m ->
+  decode_message (dd_template T_of n_of c_of) sig info ign (s ++ t) = Ok m.
+Proof. exact message_trailing_bytes_template. Qed.
+Print Assumptions C12_message_trailing_bytes_template.
+
+Theorem C12_message_cut_template : forall T_of n_of c_of sig info ign s m,
+  decode_message (dd_template T_of n_of c_of) sig info ign s = Ok m ->
+  forall k,
+    if holds_message sig s m k
+    then decode_message (dd_template T_of n_of c_of) sig info ign (firstn k s) = Ok m
+    else lib_fail (decode_message (dd_template T_of n_of c_of) sig info ign (firstn k s)).
+Proof. exact message_cut_template. Qed.
+Print Assumptions C12_message_cut_template.
+
+Theorem C12_encoded_prefix_fails_template : forall T_of n_of c_of ign json m k,
+  encode_message ign json = Ok m ->
+  forallb sec_fitsb (m_sections m) = true -> forallb desc_fill_okb (m_sections m) = true ->
+  data_okb (dd_template T_of n_of c_of) [] (m_sections m) = true ->
+  (k < length (m_bytes m))%nat ->
+  lib_fail (decode_message (dd_template T_of n_of c_of) (Some sig_BUFR) false false (firstn k (m_bytes m))).
+Proof. exact encoded_prefix_fails_template. Qed.
+Print Assumptions C12_encoded_prefix_fails_template.
+
+Theorem C12_encoded_info_prefix_template : forall T_of n_of c_of ign json m,
+  encode_message ign json = Ok m ->
+  forallb sec_fitsb (m_sections m) = true -> forallb desc_fill_okb (m_sections m) = true ->
+  data_okb (dd_template T_of n_of c_of) [] (m_sections m) = true ->
+  exists mi,
+    decode_message (dd_template T_of n_of c_of) (Some sig_BUFR) true false (m_bytes m) = Ok mi /\
+    sections_nbits (m_sections mi) = (8 * (length (m_bytes m) - 4))%nat /\
+    forall k,
+      ((length (m_bytes m) - 4 <= k)%nat ->
+         decode_message (dd_template T_of n_of c_of) (Some sig_BUFR) true false (firstn k (m_bytes m)) = Ok mi) /\
+      ((k < length (m_bytes m) - 4)%nat ->
+         lib_fail (decode_message (dd_template T_of n_of c_of) (Some sig_BUFR) true false (firstn k (m_bytes m)))).
+Proof. exact encoded_info_prefix_template. Qed.
+Print Assumptions C12_encoded_info_prefix_template.
+
+(* non-vacuity: a template with a numeric element, a delayed replication (factor
+   031001) of a scaled element and a string; two subsets; edition 4; once
+   uncompressed (2 and 0 repetitions) and once compressed (columns with and
+   without increments): the executable hypotheses hold, the message decodes,
+   EVERY proper prefix fails with a library error (computed, all k), and
+   metadata-only decoding succeeds exactly from |m| - 4 on *)
+Example C12_real_truncation_nonvacuous :
+  ex_real_check (exu_json false ex_data) = true /\ ex_real_check (exu_json true ex_data_c) = true.
+Proof. exact real_truncation_nonvacuous. Qed.
